@@ -21,6 +21,7 @@ func (s *Session) extraObligations(prop string) ([]*Obligation, error) {
 	out = append(out, s.dependsObligations(prop)...)
 	out = append(out, s.ownObligations(prop)...)
 	out = append(out, s.bridgeObligations(prop)...)
+	out = append(out, s.errsObligations(prop)...)
 	if prop == "C13" {
 		for _, ob := range s.frameObligations("C06") {
 			if hasProp(ob.Props, "C13") {
